@@ -44,9 +44,9 @@ verus! {
     requires self.wf(), left < right <= self.len(), dt_ok(time),
     ensures
         r is Some ==> left <= r.unwrap() < right
-            && dt_le(time, self.end_at(r.unwrap() as int))
-            && forall|j: int| left <= j < r.unwrap() ==> dt_lt(#[trigger] self.end_at(j), time),
-        r is None ==> forall|j: int| left <= j < right ==> dt_lt(#[trigger] self.end_at(j), time),
+            && dt_lt(time, self.end_at(r.unwrap() as int))
+            && forall|j: int| left <= j < r.unwrap() ==> dt_le(#[trigger] self.end_at(j), time),
+        r is None ==> forall|j: int| left <= j < right ==> dt_le(#[trigger] self.end_at(j), time),
     decreases right - left,
 //@first
         broadcast use lemma_dt_cmp_rank;
@@ -74,9 +74,9 @@ verus! {
     requires self.wf(), left < right <= self.len(), dt_ok(time),
     ensures
         r is Some ==> left <= r.unwrap() < right
-            && dt_le(self.start_at(r.unwrap() as int), time)
-            && forall|j: int| r.unwrap() < j < right ==> dt_lt(time, #[trigger] self.start_at(j)),
-        r is None ==> forall|j: int| left <= j < right ==> dt_lt(time, #[trigger] self.start_at(j)),
+            && dt_lt(self.start_at(r.unwrap() as int), time)
+            && forall|j: int| r.unwrap() < j < right ==> dt_le(time, #[trigger] self.start_at(j)),
+        r is None ==> forall|j: int| left <= j < right ==> dt_le(time, #[trigger] self.start_at(j)),
     decreases right - left,
 //@first
         broadcast use lemma_dt_cmp_rank;
